@@ -4,6 +4,7 @@ go 1.22.0
 
 require (
 	github.com/quasilyte/go-ruleguard v0.0.0
+	github.com/quasilyte/go-ruleguard/dsl v0.3.22
 	github.com/quasilyte/gogrep v0.5.0
 	github.com/quasilyte/stdinfo v0.0.0-20220114132959-f7386bf02567
 	golang.org/x/tools v0.30.0
@@ -12,7 +13,6 @@ require (
 require (
 	github.com/go-toolsmith/astcopy v1.0.2 // indirect
 	github.com/go-toolsmith/astequal v1.0.3 // indirect
-	github.com/quasilyte/go-ruleguard/dsl v0.3.22 // indirect
 	golang.org/x/exp/typeparams v0.0.0-20240213143201-ec583247a57a // indirect
 	golang.org/x/mod v0.23.0 // indirect
 	golang.org/x/sync v0.11.0 // indirect
